@@ -147,7 +147,25 @@ def _gen_ping_burst(rng, tier):
                "reactor": {"kind": "ws", "echo_close": False}, "truth": {}, "sched": {"seed": rng.randrange(1 << 30)}, "horizon": 100.0}
 
 
+def _gen_half_closed(rng, tier):
+    """A client that has finished sending (half-close) but goes on reading, and an application that takes longer than keep_alive_timeout to
+    answer: the response is owed on both workers (nothing is waiting to be written meanwhile: nobody is failing to take anything)."""
+    for i in range(10 if tier == "quick" else 200):
+        T = 1.0
+        tag = 8900000 + i * 10
+        fast = [["recv_until_end"], ["respond", 200, [(b"x-tag", b"%d" % tag)], b"first"]]
+        late = [["recv_until_end"], ["sleep", rng.choice([2.5, 4.0]) * T], ["respond", 200, [(b"x-tag", b"%d" % (tag + 1))], b"late"]]
+        r1 = b"GET /t%d HTTP/1.1\r\nHost: h\r\n\r\n" % tag
+        r2 = b"GET /t%d HTTP/1.1\r\nHost: h\r\n\r\n" % (tag + 1)
+        first_too = rng.random() < 0.7
+        client = ([["feed", r1], ["settle"]] if first_too else []) + [["feed", r2], ["settle"], ["eof"], ["settle"], ["advance", 6 * T], ["settle"]]
+        yield {"family": "c16:half-closed-slow-answer", "source": "c16", "backends": ["asyncio", "trio"], "config": {"keep_alive_timeout": T}, "conn": {},
+               "apps": {"default": fast, "by_tag": {str(tag): fast, str(tag + 1): late}}, "client": client,
+               "truth": {"requests": [{"method": "GET"}] * (2 if first_too else 1)}, "sched": {"seed": rng.randrange(1 << 30)}, "horizon": 100.0}
+
+
 def gen(rng, tier):
+    yield from _gen_half_closed(rng, tier)
     yield from _gen_peer_gone(rng, tier)
     yield from _gen_ping_burst(rng, tier)
     # the per-connection state seen by an application is part of the scope it is handed: it has to be the same on both workers,
@@ -201,6 +219,8 @@ def _gen_sources(rng, tier):
             t = case.get("truth") or {}
             if name == "c06" and (any(m not in ("after", "slow") for m in t.get("modes", [])) or t.get("kind") in ("unread-upload", "early-answer")):
                 continue  # responding before the body has been read races the reader (C06 ND)
+            if name == "c01" and any(sc and sc[0][0] == "send" for sc in ((case.get("apps") or {}).get("by_tag") or {}).values()):
+                continue  # an application that answers before it reads races the reader (which worker has announced "connection: close" by then): ND, as for c06
             if name == "c10" and t.get("deflate") and t.get("inner_ping"):
                 continue  # known third-party mechanism (wsproto), outcome after the failure is not specified
             if name == "c10" and any(len(m[1]) > t.get("limit", 1 << 30) for m in t.get("msgs", [])):
